@@ -156,3 +156,12 @@ func gateExplore[S any](t *testing.T, r *rep.Report, scs []S, bound int, runOne 
 		t.Errorf("schedule replay diverged %d time(s); see notes", r.Counters["divergences"])
 	}
 }
+
+// mutexHeld reports whether m (a *vsync.Mutex under the shims) is held; with the
+// real sync.Mutex (free-running units) the answer is not observable: false.
+func mutexHeld(m any) bool {
+	if h, ok := m.(interface{ Held() bool }); ok {
+		return h.Held()
+	}
+	return false
+}
